@@ -131,6 +131,17 @@ func (g *Gen) recase(s []byte, ill bool, p float64) []byte {
 		}
 		i += w
 	}
+	// swapping ill-formed bytes can create or destroy multi-byte sequences;
+	// keep the re-casing only if the code-point sequence is still fold-equal
+	a, b := keyOf(s), keyOf(out)
+	if len(a.k) != len(b.k) {
+		return append([]byte{}, s...)
+	}
+	for i := range a.k {
+		if a.k[i] != b.k[i] {
+			return append([]byte{}, s...)
+		}
+	}
 	return out
 }
 
